@@ -243,6 +243,7 @@ type semProg struct {
 	Alpha  string
 	Source string
 	Expect string // accepted | rejected (whole class the compiler refuses)
+	Mpm    bool   // multi-processor program: compiled with -mpm (channel family)
 	dir    string
 	src    string
 }
@@ -796,6 +797,32 @@ func execHDL(machJSON []byte, asm string, maxCycles int) (res hdlResult) {
 	return res
 }
 
+// elaborateBM renders the whole file set of a multi-processor bondmachine and tries to elaborate it.
+func elaborateBM(bmj []byte) (res hdlResult) {
+	defer func() {
+		if p := recover(); p != nil {
+			res = hdlResult{Status: "not-simulable", Detail: fmt.Sprint("panic: ", p)}
+		}
+	}()
+	var bj bondmachine.Bondmachine_json
+	if err := json.Unmarshal(bmj, &bj); err != nil {
+		return hdlResult{Status: "not-simulable", Detail: "bondmachine json: " + err.Error()}
+	}
+	bm := (&bj).Dejsoner()
+	files, err := bmgen.RenderFiles(bm, new(bondmachine.Config), "iverilog")
+	if err != nil {
+		return hdlResult{Status: "not-simulable", Detail: "render: " + err.Error()}
+	}
+	d, diags := vsim.Parse(files)
+	for _, dg := range diags {
+		return hdlResult{Status: "not-simulable", Detail: fmt.Sprintf("%s %s:%d %s", dg.Class, dg.File, dg.Line, dg.Msg)}
+	}
+	if _, err := d.Elaborate("bondmachine", nil); err != nil {
+		return hdlResult{Status: "not-simulable", Detail: "elaborate: " + err.Error()}
+	}
+	return hdlResult{Status: "elaborates"}
+}
+
 // ------------------------------------------------------------------ executor worker processes
 //
 // The HDL generators of /repo keep package-level state and are not goroutine safe, so the driver
@@ -806,6 +833,7 @@ type execReq struct {
 	Mach      string
 	Asm       string
 	MaxCycles int
+	BM        string // a whole bondmachine JSON: only try to render + parse + elaborate it
 }
 
 func semWorkerMain() {
@@ -819,7 +847,11 @@ func semWorkerMain() {
 			if e := json.Unmarshal(line, &rq); e != nil {
 				res = hdlResult{Status: "not-simulable", Detail: "worker: " + e.Error()}
 			} else {
-				res = execHDL([]byte(rq.Mach), rq.Asm, rq.MaxCycles)
+				if rq.BM != "" {
+					res = elaborateBM([]byte(rq.BM))
+				} else {
+					res = execHDL([]byte(rq.Mach), rq.Asm, rq.MaxCycles)
+				}
 			}
 			b, _ := json.Marshal(res)
 			out.Write(b)
@@ -866,8 +898,17 @@ func (w *execWorker) stop() {
 
 // run executes one machine; a worker that dies (generator calling os.Exit, fatal runtime error) is
 // restarted and the program counted as not simulable.
+// runBM asks the worker to render, parse and elaborate a whole bondmachine.
+func (w *execWorker) runBM(bmj []byte) hdlResult {
+	return w.request(execReq{BM: string(bmj)})
+}
+
 func (w *execWorker) run(mach []byte, asm string, maxCycles int) hdlResult {
-	b, _ := json.Marshal(execReq{Mach: string(mach), Asm: asm, MaxCycles: maxCycles})
+	return w.request(execReq{Mach: string(mach), Asm: asm, MaxCycles: maxCycles})
+}
+
+func (w *execWorker) request(rq execReq) hdlResult {
+	b, _ := json.Marshal(rq)
 	b = append(b, '\n')
 	if _, err := w.in.Write(b); err == nil {
 		if line, err := w.out.ReadBytes('\n'); err == nil {
@@ -894,6 +935,11 @@ type semOutcome struct {
 	Got          map[int][]uint64
 	Asm          string
 	Log          string
+	Compiled     *compiled // compile-deadlock-in-every-schedule: the proof data
+	Artefact     string    // artefacts-differ-between-two-compilations: which kind
+	ExpectedMP   map[int][]uint64
+	GotMP        map[int][]uint64
+	HDLNote      string
 	Misfit       string   // assembly-not-runnable "operand does not fit": which operand kind
 	Missing      []string // opcodes used by the emitted assembly but absent from the requested machine
 	Machine      string   // machine-mismatch: opcode whose hardware diverges from the ISA model
@@ -902,6 +948,9 @@ type semOutcome struct {
 
 // features lists the constructs a program uses (go/ast walk of main); used to group failures.
 func features(src string) []string {
+	if isChannelProgram(src) {
+		return channelFeatures(src)
+	}
 	if isScopingProgram(src) {
 		// what is done to the shadowing / the outer variable; block kind and residency are dropped so that
 		// one scoping defect gives one signature
@@ -1091,25 +1140,41 @@ func outsEqual(a, b map[int][]uint64, n int) bool {
 	return true
 }
 
-// compileBatch compiles the programs with the instrumented compiler (batch mode of the child harness).
-func compileBatch(bt *built, progs []*semProg, rsize int, tag string) ([]struct {
+// compiled is the result of one compilation in the batch child (see child_harness.go.txt).
+type compiled struct {
 	Status, Panic, Detail string
 	Choices               []int
 	Tries                 int
-}, error) {
+	Shape                 string
+	Blocked               []string
+	Schedules, Bound      int
+	Full                  bool
+	CapHit                string
+}
+
+func compilerArgs(rsize int, mpm bool, input string) []string {
+	a := []string{"-input-file", input, "-register-size", fmt.Sprint(rsize), "-show-requirements", "-save-assembly", "out.asm"}
+	if mpm {
+		return append(a, "-mpm", "-save-bondmachine", "bm.json")
+	}
+	return append(a, "-save-machine", "m.json")
+}
+
+// compileBatch compiles the programs with the instrumented compiler (batch mode of the child harness)
+// in the directories p.dir+dirSuffix.
+func compileBatch(bt *built, progs []*semProg, rsize int, mpm bool, tag, dirSuffix string) ([]compiled, error) {
 	var items []map[string]string
 	for _, p := range progs {
-		items = append(items, map[string]string{"Src": p.src, "Dir": p.dir})
+		items = append(items, map[string]string{"Src": p.src, "Dir": p.dir + dirSuffix})
 	}
-	dir := filepath.Join(bt.Scratch, "sem", "batch-"+tag)
+	dir := filepath.Join(bt.Scratch, "sem", "batch-"+tag+dirSuffix)
 	sem <- struct{}{}
 	defer func() { <-sem }()
 	os.MkdirAll(dir, 0o755)
 	out := filepath.Join(dir, ".c12.report.json")
 	optsFile := map[string]any{"Out": out, "Batch": items}
 	ob, _ := json.Marshal(optsFile)
-	args := []string{"-input-file", "placeholder.go", "-register-size", fmt.Sprint(rsize), "-show-requirements", "-save-assembly", "out.asm", "-save-machine", "m.json"}
-	b, err := runRaw(bt.GsBin, args, dir, []string{"VERIF_C12_MODE=batch", "VERIF_C12_OPTS=" + string(ob)})
+	b, err := runRaw(bt.GsBin, compilerArgs(rsize, mpm, "placeholder.go"), dir, []string{"VERIF_C12_MODE=batch", "VERIF_C12_OPTS=" + string(ob)})
 	if err != nil {
 		return nil, fmt.Errorf("batch child: %v\n%s", err, tail(string(b), 3000))
 	}
@@ -1117,13 +1182,7 @@ func compileBatch(bt *built, progs []*semProg, rsize int, tag string) ([]struct 
 	if err != nil {
 		return nil, err
 	}
-	var rep struct {
-		Batch []struct {
-			Status, Panic, Detail string
-			Choices               []int
-			Tries                 int
-		}
-	}
+	var rep struct{ Batch []compiled }
 	if err := json.Unmarshal(rb, &rep); err != nil {
 		return nil, err
 	}
@@ -1147,6 +1206,9 @@ func part2(run *vlib.Run, bt *built) bool {
 			progs = append(progs, &semProg{Rsize: rs, Size: 2, Alpha: "rejected-operators", Source: sourceOf(body, rs), Expect: "rejected"})
 		}
 	}
+	chp, chd := channelPrograms(run.Thorough())
+	progs = append(progs, chp...)
+	planDescr = append(planDescr, chd...)
 	stp, std := storagePrograms(run.Thorough())
 	progs = append(progs, stp...)
 	planDescr = append(planDescr, std...)
@@ -1189,14 +1251,17 @@ func part2(run *vlib.Run, bt *built) bool {
 
 	// work in batches: compile (child process) then execute + compare (this process)
 	const batchSize = 64
-	type batch struct{ lo, hi, rsize int }
+	type batch struct {
+		lo, hi, rsize int
+		mpm           bool
+	}
 	var batches []batch
 	for lo := 0; lo < len(progs); {
 		hi := lo
-		for hi < len(progs) && hi-lo < batchSize && progs[hi].Rsize == progs[lo].Rsize {
+		for hi < len(progs) && hi-lo < batchSize && progs[hi].Rsize == progs[lo].Rsize && progs[hi].Mpm == progs[lo].Mpm {
 			hi++
 		}
-		batches = append(batches, batch{lo, hi, progs[lo].Rsize})
+		batches = append(batches, batch{lo, hi, progs[lo].Rsize, progs[lo].Mpm})
 		lo = hi
 	}
 	outcomes := make([]*semOutcome, len(progs))
@@ -1231,7 +1296,11 @@ func part2(run *vlib.Run, bt *built) bool {
 				}
 				ps := progs[b.lo:b.hi]
 				tc := time.Now()
-				rs, err := compileBatch(bt, ps, b.rsize, fmt.Sprint(b.lo))
+				rs, err := compileBatch(bt, ps, b.rsize, b.mpm, fmt.Sprint(b.lo), "")
+				var rs2 []compiled
+				if err == nil && b.mpm { // channel family: a second, independent compilation
+					rs2, err = compileBatch(bt, ps, b.rsize, b.mpm, fmt.Sprint(b.lo), "-again")
+				}
 				tCompile.add(tc)
 				if err != nil {
 					mu.Lock()
@@ -1247,7 +1316,13 @@ func part2(run *vlib.Run, bt *built) bool {
 					mu.Unlock()
 				}
 				for i, p := range ps {
-					oc := judge(xw, p, rs[i].Status, rs[i].Panic, rs[i].Detail, rs[i].Choices)
+					var oc *semOutcome
+					if b.mpm {
+						oc = judgeChannel(xw, p, rs[i], rs2[i])
+						os.RemoveAll(p.dir + "-again")
+					} else {
+						oc = judge(xw, p, rs[i])
+					}
 					outcomes[p.ID] = oc
 					os.RemoveAll(p.dir)
 					os.Remove(p.src)
@@ -1292,13 +1367,26 @@ func part2(run *vlib.Run, bt *built) bool {
 			}
 		}
 	}
-	reportSemFailures(run, failing)
+	reportSemFailures(run, bt, failing)
 	run.Set("part2_programs_enumerated", len(progs))
 	run.Set("part2_programs_done", done)
 	run.Set("part2_classes", counts)
 	run.Set("part2_compared_ok", counts["ok"])
 	run.Set("part2_distinct_output_traces", len(distinct))
 	run.Set("part2_enumeration", planDescr)
+	chN, chElab, chNote := 0, 0, ""
+	for _, oc := range outcomes {
+		if oc != nil && oc.Prog.Mpm && oc.HDLNote != "" {
+			chN++
+			if strings.HasPrefix(oc.HDLNote, "elaborates") {
+				chElab++
+			} else if chNote == "" {
+				chNote = oc.HDLNote
+			}
+		}
+	}
+	run.Set("part2_channel_family_oracles", fmt.Sprintf("(1) termination: every program is compiled under the gosched scheduler; a program all of whose explored compiler schedules (preemption bound 2, cap 600 runs) end with an empty enabled set is a proven hang and is re-run in a fresh process before it is reported; (2) two independent compilations (two processes) must emit identical assembly files and bondmachine JSON; (3) hardware execution is NOT available for this family: %d of %d generated multi-processor file sets elaborate under vsim (first diagnostic: %s; generator defects of chw/wrd/wwr and of the channel shared object, property C18); instead the emitted assembly of all processors is run on a multi-processor ISA model (rendezvous channels wired by Shared_links of the saved bondmachine, output ids from the requirements dump) and compared with a small-step go/ast reference evaluator with Go channel semantics, both run to quiescence (a BondMachine processor does not stop when main returns)", chElab, chN, chNote))
+	run.Set("part2_channel_family", "uint8 (thorough: also uint16): {receive in a goroutine, in main, in an ordinary function} x {send in main, in an ordinary function, in a goroutine} (both ends in main excluded) x {no alias, c2 = c used by the sender, c2 = c used by the receiver}; pipeline main -> relay goroutine -> worker (2 channels, 2 goroutines); two independent channel/worker pairs; two messages on one channel; goroutine -> goroutine -> main; channel declared in a nested block; ordinary functions on two channels; make(chan T) (refused by the compiler: expected); thorough: the first four extras also with an aliased sender")
 	run.Set("part2_storage_reuse_family", "1..2 outer memory variables; sibling constructs declaring k memory locals each (every local assigned a distinct constant and written to the output inside its block), outer variables written after them; two siblings, all (k1,k2) in 0..3: bare/bare, if reg_t == 1 {k1} else {k2}, bare block then k2 top level declarations (thorough: also if reg_t == 0, uint16); thorough: three siblings, all (k1,k2,k3) in 0..3: bare/bare/bare, if-else + bare, bare + if-else, bare/bare + declarations, uint8 and uint16")
 	run.Set("part2_shadowing_family", "block scoping: outer variable V (a = memory, reg_b = register), block kinds {bare, if body, else body, for body} x {redeclares V, does not} x PRE {V = 5 (thorough: also none)} x INNER = all sequences of 1..2 statements of {V = 1, V = V + 2, V++, IOWrite(o0, V)} x POST {IOWrite; V++ IOWrite (thorough: also V = V + 2 IOWrite; IOWrite V = 1 IOWrite)} (quick: the non-redeclaring control only for the bare block); two levels: block {[var V] s1 {[var V] s2 IOWrite} IOWrite} IOWrite with s1 in {V = 1, V++}, s2 in {V = 3, V = V + 2, V++}, all four redeclaration combinations (quick: outer block bare; thorough: all four kinds); 16 bit: bare and for body, redeclared, one inner statement")
 	run.Set("part2_bounds", "all canonical programs (last statement writes an output; no assignment that is immediately overwritten) with exactly `size` statements (nested ones counted) over the named statement alphabet: variables a (memory) and reg_b (register) of type uintN, assignments of constants / the other variable / + / * / bondgo.IORead / a function call, ++/--, bondgo.IOWrite to one or two outputs, if / if-else with == conditions, two bounded for loops; plus one program per binary operator the compiler refuses (- & | ^ / <<)")
@@ -1333,7 +1421,8 @@ func runRaw(bin string, args []string, dir string, env []string) ([]byte, error)
 }
 
 // judge turns one compiled program into an outcome.
-func judge(xw *execWorker, p *semProg, status, panicMsg, detail string, choices []int) *semOutcome {
+func judge(xw *execWorker, p *semProg, c compiled) *semOutcome {
+	status, panicMsg, detail := c.Status, c.Panic, c.Detail
 	oc := &semOutcome{Prog: p}
 	logb, _ := os.ReadFile(filepath.Join(p.dir, ".c12.stdout"))
 	oc.Log = string(logb)
@@ -1346,7 +1435,7 @@ func judge(xw *execWorker, p *semProg, status, panicMsg, detail string, choices 
 		return oc
 	case "completed":
 	default:
-		oc.Class, oc.Detail = "compile-"+status, detail
+		oc.Class, oc.Detail, oc.Compiled = "compile-"+status, detail, &c
 		return oc
 	}
 	if mjErr != nil { // the compiler refused the program (Set_faulty): no artefact
@@ -1489,6 +1578,7 @@ func msgClass(s string) string {
 type semReplay struct {
 	Part     string `json:"part"`
 	Rsize    int    `json:"register_size"`
+	Mpm      bool   `json:"mpm,omitempty"`
 	Source   string `json:"source"`
 	Class    string `json:"class"`
 	Expected string `json:"expected_outputs"`
@@ -1499,7 +1589,7 @@ type semReplay struct {
 // from the artefacts get one signature per cause (opcode whose hardware diverges, assembler message,
 // opcode missing from the requested machine, known structural trigger); the rest is grouped per
 // failure class by the minimal construct sets (w.r.t. inclusion) of the failing programs.
-func reportSemFailures(run *vlib.Run, failing []*semOutcome) {
+func reportSemFailures(run *vlib.Run, bt *built, failing []*semOutcome) {
 	type group struct {
 		sig   string
 		descr string
@@ -1544,6 +1634,10 @@ func reportSemFailures(run *vlib.Run, failing []*semOutcome) {
 				mc = "opcode-emitted-but-not-requested|" + strings.Join(oc.Missing, "+")
 			} else if strings.HasPrefix(mc, "operand-does-not-fit") {
 				mc += "|" + oc.Misfit // which operand: a jump target and a RAM address are different root causes
+			} else if i := strings.Index(oc.Detail, "error processing "); i >= 0 {
+				if f := strings.Fields(oc.Detail[i+len("error processing "):]); len(f) > 0 {
+					mc += "|" + f[0]
+				}
 			}
 			add("C12|codegen|assembly-not-runnable-on-requested-machine|"+mc, "the assembler of the machine bondgo requests refuses the assembly bondgo emits (the saved machine has an empty program)", oc)
 			continue
@@ -1557,8 +1651,21 @@ func reportSemFailures(run *vlib.Run, failing []*semOutcome) {
 			}
 		}
 		// generic grouping by minimal construct sets
+		gclass, prefix, descr := oc.Class, "C12|semantics|"+oc.Class+"|", "programs using these constructs fail"
+		switch oc.Class {
+		case "compile-deadlock-in-every-schedule":
+			shape := "unknown"
+			if oc.Compiled != nil {
+				shape = sigDetail(oc.Compiled.Shape)
+			}
+			gclass, prefix = oc.Class+"|"+shape, "C12|termination|compiler-hangs|"+shape+"|"
+			descr = "bondgo never terminates on these programs: every explored schedule of the compiler ends with an empty enabled set (proven blocked-forever state)"
+		case "artefacts-differ-between-two-compilations":
+			gclass, prefix = oc.Class+"|"+oc.Artefact, "C12|compiler|output-differs-between-identical-compilations|"+oc.Artefact+"|"
+			descr = "two compilations of the same program emit different artefacts"
+		}
 		placed := false
-		for _, g := range generic[oc.Class] {
+		for _, g := range generic[gclass] {
 			if subset(g.feat, fs) {
 				g.n++
 				placed = true
@@ -1566,8 +1673,8 @@ func reportSemFailures(run *vlib.Run, failing []*semOutcome) {
 			}
 		}
 		if !placed {
-			g := &group{sig: "C12|semantics|" + oc.Class + "|" + strings.Join(fs, "+"), descr: "programs using these constructs fail", feat: fs, first: oc, n: 1}
-			generic[oc.Class] = append(generic[oc.Class], g)
+			g := &group{sig: prefix + strings.Join(fs, "+"), descr: descr, feat: fs, first: oc, n: 1}
+			generic[gclass] = append(generic[gclass], g)
 			order = append(order, g)
 		}
 	}
@@ -1577,7 +1684,19 @@ func reportSemFailures(run *vlib.Run, failing []*semOutcome) {
 		if oc.Asm != "" {
 			what += " | emitted assembly: " + strings.ReplaceAll(strings.TrimSpace(oc.Asm), "\n", "; ")
 		}
-		run.Report(g.sig, what, semReplay{Part: "semantics", Rsize: oc.Prog.Rsize, Source: oc.Prog.Source, Class: oc.Class, Expected: fmtOuts(oc.Expected, 2), Got: oc.Detail})
+		if c := oc.Compiled; c != nil && oc.Class == "compile-deadlock-in-every-schedule" {
+			// re-run the first deadlocking schedule in a fresh process (the child detects the deadlock itself)
+			src := filepath.Join(bt.Scratch, "sem", fmt.Sprintf("hang-%d.go", oc.Prog.ID))
+			os.MkdirAll(filepath.Dir(src), 0o755)
+			os.WriteFile(src, []byte(oc.Prog.Source), 0o644)
+			j := &job{Name: "hang", Rsize: oc.Prog.Rsize, Mpm: oc.Prog.Mpm, srcPath: src}
+			fo := replayFreshProcess(bt, j, c.Choices)
+			if !fo.Deadlock || shapeOf(fo.Blocked) != c.Shape {
+				fatalHarness("part 2: schedule %v deadlocks (%s) in the batch harness but a fresh process gives deadlock=%v blocked=%q obs=%q for\n%s", c.Choices, c.Shape, fo.Deadlock, shapeOf(fo.Blocked), fo.Observation, oc.Prog.Source)
+			}
+			what += fmt.Sprintf(" | %d schedules explored (preemption bound %d completed, every interleaving: %v, cap %q), all deadlock: %s; confirmed in a fresh process (schedule %v): %s", c.Schedules, c.Bound, c.Full, c.CapHit, c.Detail, c.Choices, strings.Join(c.Blocked, " ; "))
+		}
+		run.Report(g.sig, what, semReplay{Part: "semantics", Rsize: oc.Prog.Rsize, Mpm: oc.Prog.Mpm, Source: oc.Prog.Source, Class: oc.Class, Expected: fmtOuts(oc.Expected, 2), Got: oc.Detail})
 	}
 }
 
@@ -1633,24 +1752,49 @@ func semOne(bt *built, ro semReplay) {
 	os.MkdirAll(p.dir, 0o755)
 	os.WriteFile(p.src, []byte(p.Source), 0o644)
 	fmt.Printf("  register size %d, program:\n%s\n", ro.Rsize, indent(ro.Source))
-	rs, err := compileBatch(bt, []*semProg{p}, p.Rsize, "replay")
+	p.Mpm = ro.Mpm || isChannelProgram(ro.Source)
+	rs, err := compileBatch(bt, []*semProg{p}, p.Rsize, p.Mpm, "replay", "")
 	if err != nil {
 		fatalHarness("%v", err)
 	}
 	fmt.Printf("  compiled by the compiler built from the current /repo tree: status=%s schedule=%v %s\n", rs[0].Status, rs[0].Choices, rs[0].Panic)
+	if rs[0].Status == "deadlock-in-every-schedule" {
+		fmt.Printf("  all %d explored schedules of the compiler (preemption bound %d, every interleaving: %v) end with an empty enabled set: %s\n", rs[0].Schedules, rs[0].Bound, rs[0].Full, rs[0].Detail)
+		for _, g := range rs[0].Blocked {
+			fmt.Printf("    blocked: %s\n", g)
+		}
+		j := &job{Name: "replay", Rsize: p.Rsize, Mpm: p.Mpm, srcPath: p.src}
+		fo := replayFreshProcess(bt, j, rs[0].Choices)
+		fmt.Printf("  fresh process, schedule %v: deadlock=%v blocked set %s\n", rs[0].Choices, fo.Deadlock, shapeOf(fo.Blocked))
+	}
 	xw, err := startExecWorker()
 	if err != nil {
 		fatalHarness("%v", err)
 	}
 	defer xw.stop()
-	oc := judge(xw, p, rs[0].Status, rs[0].Panic, rs[0].Detail, rs[0].Choices)
+	var oc *semOutcome
+	if p.Mpm {
+		rs2, err := compileBatch(bt, []*semProg{p}, p.Rsize, p.Mpm, "replay", "-again")
+		if err != nil {
+			fatalHarness("%v", err)
+		}
+		oc = judgeChannel(xw, p, rs[0], rs2[0])
+	} else {
+		oc = judge(xw, p, rs[0])
+	}
 	if oc.Log != "" {
 		fmt.Printf("  compiler output:\n%s\n", indent(oc.Log))
 	}
 	if oc.Asm != "" {
 		fmt.Printf("  emitted assembly:\n%s\n", indent(oc.Asm))
 	}
-	fmt.Printf("  reference evaluation (Go semantics, wrap-around at %d bits): %s\n", ro.Rsize, fmtOuts(oc.Expected, 2))
-	fmt.Printf("  generated hardware under vsim:                           %s\n", fmtOuts(oc.Got, 2))
+	if p.Mpm {
+		fmt.Printf("  reference evaluation (Go channel semantics, run to quiescence): %s\n", fmtOutMap(oc.ExpectedMP))
+		fmt.Printf("  multi-processor ISA model of the emitted assembly:              %s\n", fmtOutMap(oc.GotMP))
+		fmt.Printf("  hardware: %s\n", oc.HDLNote)
+	} else {
+		fmt.Printf("  reference evaluation (Go semantics, wrap-around at %d bits): %s\n", ro.Rsize, fmtOuts(oc.Expected, 2))
+		fmt.Printf("  generated hardware under vsim:                           %s\n", fmtOuts(oc.Got, 2))
+	}
 	fmt.Printf("RESULT: class=%s %s\n", oc.Class, oc.Detail)
 }
